@@ -577,4 +577,11 @@ def gen_scenario(seed, tier="quick"):
                 # state with all executed stores applied (the executor adopts
                 # whatever the VM really did)
                 models[v].g = m.g
-    return {"kind": "c15", "seed": seed, "prog": prog, "ops": ops, "optimize": sw["optimize"], "swarm": sw}
+    sc = {"kind": "c15", "seed": seed, "prog": prog, "ops": ops, "optimize": sw["optimize"], "swarm": sw}
+    if rng.random() < 0.04:
+        # beyond-statement probe P1: a host exception raised inside an invocation at a given VM
+        # line event (KeyboardInterrupt analogue).  Tallied, never judged; the run ends there.
+        inv = [i for i, o in enumerate(ops) if o[0] == "inv"]
+        if inv:
+            sc["cancel"] = {str(rng.choice(inv[len(inv) // 2:])): rng.choice([1, 5, 20, 60, 200, 1000])}
+    return sc
